@@ -260,3 +260,33 @@ class ConcreteWorld(World):
     def And(self, *cs): return all(bool(c) for c in cs)
     def Or(self, *cs): return any(bool(c) for c in cs)
     def Not(self, c): return not bool(c)
+
+
+
+class SampleWorld(ConcreteWorld):
+    """Native run on SAMPLED leaf values (deterministic in `seed`): the fall-back when the symbolic engine cannot execute a
+    configuration of the tree under check (EngineUnsupported, path or wall-clock budget).  A clause that was discharged
+    on the baseline tree and fails here on the real code with the sampled floats is a replayable violation; a run in which
+    nothing fails decides nothing (the configuration stays an engine error)."""
+    POOL = (0.0, 1.0, 2.0, 0.5, 3.0, 0.25, 1.5, 0.75, 7.25, 2.5, 0.0, 1.0, -1.0, -2.5, 4.0, 0.125)
+
+    def __init__(self, cfg, seed):
+        super().__init__(cfg, {}, {})
+        import random
+        self._rng = random.Random(1000003 * int(seed) + 17)
+        self.scale = 1.0
+
+    def real(self, name, lo=None, hi=None, lo_strict=False, hi_strict=False, nonzero=False):
+        ok = lambda v: ((lo is None or (v > lo if lo_strict else v >= lo)) and (hi is None or (v < hi if hi_strict else v <= hi))
+                        and not (nonzero and v == 0.0))
+        pool = [v for v in self.POOL if ok(v)]
+        if pool:
+            v = self._rng.choice(pool)
+        else:
+            a = lo if lo is not None else (hi - 2.0 if hi is not None else -1.0)
+            b = hi if hi is not None else a + 2.0
+            v = a + (b - a) * self._rng.choice((0.5, 0.25, 0.75, 0.1, 0.9))
+        v = float(v)
+        self.leaves[name] = v
+        self.scale = max(self.scale, abs(v))
+        return v
